@@ -210,13 +210,14 @@ theorem decode_dict (k v : FTy) (raw : Val) : decode henv (.dict k v) raw =
     (dictItems raw).bind fun (ordered, ps) =>
       (decodeItems (decode henv k) (decode henv v) ps []).bind fun qs => .ok (.dict ordered qs) := by rw [decode]
 theorem decode_union (alts : List FTy) (raw : Val) :
-    decode henv (.union alts) raw = decodeU henv (alts.any FTy.isNoneT) alts raw := by rw [decode]
+    decode henv (.union alts) raw =
+      if unionOfPrims alts && alts.any (primMember raw) then .ok raw
+      else decodeU henv (alts.any FTy.isNoneT) alts raw := by rw [decode]
 theorem decode_dc (cls : Str) (reg : Bool) (fs : List (Str × FMeta × Option Val × FTy)) (v : Val) :
     decode henv (.dc cls reg fs) v = fromDictWith cls reg (fun d => decodeFields henv d fs false) v := by rw [decode]
 end
 
-theorem decodeInt_int (n : Int) (h : floatOverflow n = false) : decodeInt (.int n) = .ok (.int n) := by
-  simp only [decodeInt, h]; rfl
+theorem decodeInt_int (n : Int) : decodeInt (.int n) = .ok (.int n) := rfl
 theorem decodeEnum_ok (c : Str) (ms : List Str) (n : Str) (h : ms.contains n = true) :
     decodeEnum c ms (.str n) = .ok (.enum c n) := by
   simp only [decodeEnum, h, ↓reduceIte]
